@@ -212,7 +212,29 @@ def check(report: Report, repo: Repo) -> None:
     try:
         us = it.get_global(US, "unit_scale")
         sf = it.get_global(SF, "simulate_format")
-        f1, f2 = Obj("FPFormat", term=T("param", ("fwd_format",))), Obj("FPFormat", term=T("param", ("bwd_format",)))
+        FMT = "unit_scaling/formats.py"
+        fcls = it.get_global(FMT, "FPFormat")
+        f1, f2 = it.call_function(fcls, [4, 3], {}), it.call_function(fcls, [5, 2], {})
+        # every public transform entry point returns a new module and leaves its argument alone -- also for
+        # formats that lose nothing in float32 (a "nothing to simulate" shortcut must still copy)
+        lossless = it.call_function(fcls, [8, 23, "nearest"], {})
+        entries = [
+            ("simulate_format(m, E4M3, E5M2)", lambda m_: it.call_function(sf, [m_, f1, f2], {})),
+            ("simulate_format(m, E8M23-nearest, E8M23-nearest)", lambda m_: it.call_function(sf, [m_, lossless, lossless], {})),
+            ("simulate_fp8(m)", lambda m_: it.call_function(it.get_global(SF, "simulate_fp8"), [m_], {})),
+            ("unit_scale(m)", lambda m_: it.call_function(us, [m_], {})),
+            ("track_scales(m)", lambda m_: it.call_function(it.get_global("unit_scaling/transforms/_track_scales.py", "track_scales"), [m_], {})),
+        ]
+        for ename, run_ in entries:
+            m_in = mkmodule("m")
+            snap = snapshot(m_in)
+            try:
+                r_ = run_(m_in)
+            except Unsupported as ex:
+                report.add("R1-copy-before-write", f"{TU}::entry[{ename}]", None, f"outside fragment: {ex}")
+                continue
+            fresh_ = isinstance(r_, Obj) and r_ is not m_in
+            report.add("R1-copy-before-write", f"{TU}::entry[{ename}]", fresh_ and same_snapshot(snapshot(m_in), snap), f"{ename} returns a new module object and leaves m untouched", ("same object" if r_ is m_in else fmt(r_)[:80]) if not fresh_ else ("argument modified" if not same_snapshot(snapshot(m_in), snap) else "copy"), "a transformed copy")
         for cname, chain in (("unit_scale(simulate_format(m))", ("q", "u")), ("simulate_format(unit_scale(m))", ("u", "q"))):
             m0 = mkmodule("m")
             cur = m0
